@@ -71,6 +71,9 @@ type Pool struct {
 	Workers  int
 	Deadline time.Time // zero: none. After it no new items are handed out.
 	Env      []string
+	// ItemTimeout: a worker that does not answer an item within this time is
+	// killed and the item reported as Crashed with "TIMEOUT" (default 20 min).
+	ItemTimeout time.Duration
 }
 
 // Workers returns the default worker count.
@@ -140,11 +143,25 @@ func (p *Pool) Run(items []json.RawMessage, handle func(PoolResult)) int {
 				rd := bufio.NewReaderSize(stdout, 1<<20)
 				for i >= 0 {
 					stdin.Write(append(append([]byte{}, items[i]...), '\n'))
+					to := p.ItemTimeout
+					if to == 0 {
+						to = 20 * time.Minute
+					}
+					timedOut := false
+					timer := time.AfterFunc(to, func() {
+						timedOut = true
+						cmd.Process.Kill()
+					})
 					line, err := rd.ReadBytes('\n')
+					timer.Stop()
 					if err != nil {
 						stdin.Close()
 						cmd.Wait()
-						emit(PoolResult{Index: i, Crashed: "worker died: " + stderr.String()})
+						if timedOut {
+							emit(PoolResult{Index: i, Crashed: fmt.Sprintf("TIMEOUT: no answer within %v; last output: %s", to, stderr.String())})
+						} else {
+							emit(PoolResult{Index: i, Crashed: "worker died: " + stderr.String()})
+						}
 						break
 					}
 					var wr wireResult
